@@ -102,6 +102,15 @@ def gen_points(r, kind, N, D, scale=1):
             c = [Fraction(r.range(-512, 512), 64) for _ in range(dd)]
             INTRINSIC.append(c)
             pts.append([base[j] + sum(c[a] * dirs[a][j] for a in range(dd)) for j in range(D)])
+    elif kind == "twoclusters":
+        # two well separated clouds: the k-NN graph is disconnected for every k below the size of the smaller one,
+        # so check_connectivity has to raise k (the lists actually used are longer than requested)
+        n1 = max(2, N // 2 - r.below(max(1, N // 6)))
+        for i in range(N):
+            off = Fraction(0) if i < n1 else Fraction(96)
+            p = [Fraction(r.range(-1024, 1024), 256) for _ in range(D)]
+            p[0] += off
+            pts.append(p)
     elif kind == "grid":
         side = max(2, int(math.ceil(math.sqrt(N))))
         for i in range(N):
@@ -187,6 +196,53 @@ def random_lists(r, N, k):
     return out
 
 
+# ----------------------------------------------------------------------------- non-identity iterator ranges
+def with_decoys(rows, seed, make_decoy, extra=None):
+    """embed the N selected samples at shuffled positions among decoy samples: returns (all_rows, sel) with
+    all_rows[sel[a]] = rows[a]; the library is handed the range `sel` (non-identity, non-contiguous, unordered)"""
+    r = vlib.SplitMix64(seed)
+    N = len(rows)
+    extra = extra if extra is not None else r.range(1, max(2, N // 3))
+    total = N + extra
+    sel = r.shuffle(list(range(total)))[:N]
+    allr = [None] * total
+    for a, pos in enumerate(sel):
+        allr[pos] = rows[a]
+    for i in range(total):
+        if allr[i] is None:
+            allr[i] = make_decoy(r)
+    return allr, sel
+
+
+def restrict_line(line):
+    """the case as the MODEL sees it: callback matrices restricted to the selected samples, in range order"""
+    if " sel=" not in line:
+        return line
+    toks = line.split(" ")
+    f = {}
+    for t in toks:
+        if "=" in t:
+            k, v = t.split("=", 1)
+            f[k] = v
+    sel = [int(x) for x in f["sel"].split(",")]
+    out = []
+    for t in toks:
+        if "=" not in t:
+            out.append(t)
+            continue
+        k, v = t.split("=", 1)
+        if k == "sel":
+            continue
+        if k in ("kern", "dist"):
+            rows = [row.split(",") for row in v.split(";")]
+            v = ";".join(",".join(rows[i][j] for j in sel) for i in sel)
+        elif k in ("feat", "feat2"):
+            rows = v.split(";")
+            v = ";".join(rows[i] for i in sel)
+        out.append(k + "=" + v)
+    return " ".join(out)
+
+
 # ----------------------------------------------------------------------------- running
 def fields_of(line):
     d = {}
@@ -227,6 +283,7 @@ def run_pairs(ctx, binary, exe, lines, env=None, timeout=900):
         impl = impl + ["abort:harness-output-missing"] * (len(lines) - len(impl))
     dl = []
     for l, io in zip(lines, impl):
+        l = restrict_line(l)
         if io.startswith("abort:"):
             dl.append(l + " abort=" + io[len("abort:"):].replace(" ", "_"))
         else:
@@ -411,6 +468,7 @@ def generic_correspond(ctx, harness_src, exe, prop, plan_fn, build_line, label, 
             ctx.count(line, N >= 6 and cls in ("ok", "fail", "broken"))
             ctx.stat("case:" + label(spec))
             ctx.stat("verdict:" + cls + ((":" + sig) if cls == "skip" else ""))
+            ctx.stat("range:" + ("shuffled-subset-among-decoys" if spec.get("dseed") is not None else "identity"))
             for key in ("kern", "kind", "metric", "nm", "decade", "t", "rot"):
                 if key in spec and not (key == "nm" and spec["op"] != "embed"):
                     ctx.stat("%s:%s" % (key, spec[key]))
